@@ -41,6 +41,12 @@ def check(model, tier):
     from ..rules import structure as _structure
 
     _structure.r14_9_engine_plumbing(ctx, rule="R15.4")
+    from ..rules import commute as _commute
+
+    from ..rules import classlevel as _classlevel
+
+    _classlevel.r_commutator_messages(ctx, "R15.M1")
+    _commute.r03_2_backtrack_contract(ctx)  # what a factory call with a preferred engine rebuilds on a transfer chain
     from ..rules.foundation import run_foundation
 
     run_foundation(ctx, "15")
